@@ -1925,6 +1925,12 @@ func (f *Frame) abstractCall(v ssa.Value, callee *ssa.Function, sig *types.Signa
 	if u.structKeys {
 		calleeName = u.W.calleeKey(callee, f.redirect)
 	}
+	// the same external may be abstracted with and without an out-parameter among its operands (a
+	// receiver that is a local here, a parameter there): one function symbol per operand shape
+	arity := ""
+	if len(outs) > 0 {
+		arity = fmt.Sprintf("/%d-%d", len(sorts), len(outs))
+	}
 	for k, a := range outs {
 		el := a.Typ.Underlying().(*types.Pointer).Elem()
 		if stt, isSt := el.Underlying().(*types.Struct); isSt {
@@ -1934,7 +1940,7 @@ func (f *Frame) abstractCall(v ssa.Value, callee *ssa.Function, sig *types.Signa
 				if strings.HasPrefix(es, "(Array") {
 					continue // embedded array fields: left as they are
 				}
-				fn := u.D.Fun(fmt.Sprintf("abs:%s#out%d.%d", calleeName, k, i), sorts, es)
+				fn := u.D.Fun(fmt.Sprintf("abs:%s#out%d.%d%s", calleeName, k, i, arity), sorts, es)
 				t := u.define("abs", es, app(fn, ts...))
 				u.assumeRange(t, stt.Field(i).Type())
 				u.hset(st.heap, arr, sto(u.hget(st.heap, arr), a.T, t))
@@ -1943,7 +1949,7 @@ func (f *Frame) abstractCall(v ssa.Value, callee *ssa.Function, sig *types.Signa
 		}
 		arr, _ := u.cellArr(el)
 		es := u.D.SortOf(el)
-		fn := u.D.Fun(fmt.Sprintf("abs:%s#out%d", calleeName, k), sorts, es)
+		fn := u.D.Fun(fmt.Sprintf("abs:%s#out%d%s", calleeName, k, arity), sorts, es)
 		t := u.define("abs", es, app(fn, ts...))
 		u.assumeRange(t, el)
 		u.wellFormedLoaded(st.heap, t, el)
@@ -1952,7 +1958,7 @@ func (f *Frame) abstractCall(v ssa.Value, callee *ssa.Function, sig *types.Signa
 	var rs []Val
 	for i := 0; i < sig.Results().Len(); i++ {
 		rt := sig.Results().At(i).Type()
-		fn := u.D.Fun(fmt.Sprintf("abs:%s#%d", calleeName, i), sorts, u.D.SortOf(rt))
+		fn := u.D.Fun(fmt.Sprintf("abs:%s#%d%s", calleeName, i, arity), sorts, u.D.SortOf(rt))
 		t := u.define("abs", u.D.SortOf(rt), app(fn, ts...))
 		u.assumeRange(t, rt)
 		u.wellFormedLoaded(st.heap, t, rt)
